@@ -177,6 +177,9 @@ func judge(c Case, w *vkit.W) {
 				w.Owned(c, "DefaultFormatter(nil)", o2, want, func() ([]byte, error) { return roman.DefaultFormatter(nil, n, libFlags(c.Flags)) })
 			}
 		}
+		if pre, err := roman.DefaultFormatter([]byte("MCMXCIV xiv "), n, libFlags(c.Flags)); err != nil || string(pre) != "MCMXCIV xiv "+want {
+			w.Fail(c, "not-canonical", fmt.Sprintf("DefaultFormatter(a buffer holding two numerals, %d, flags subset %#x) = %q, %v; want %q", c.N, c.Flags, pre, err, "MCMXCIV xiv "+want))
+		}
 		if pre, err := roman.DefaultFormatter(append(make([]byte, 0, 192), "n="...), n, libFlags(c.Flags)); err != nil || string(pre) != "n="+want {
 			w.Fail(c, "not-canonical", fmt.Sprintf("DefaultFormatter(\"n=\" with spare capacity, %d, flags subset %#x) = %q, %v; want %q", c.N, c.Flags, pre, err, "n="+want))
 		}
